@@ -8,6 +8,7 @@ CONSTANTS
   Variants1 = {"ok"}
   Variants2 = {"ok"}
   LoadSteps = {1}
+  MaxFiles = 3
 INVARIANTS Emit
 VIEW View
 CHECK_DEADLOCK FALSE
